@@ -41,6 +41,22 @@ func decodeNoResponseOption(v uint32) []codes.Code {
 // IsNoResponseCode validates response code against NoResponse option from request.
 // https://www.rfc-editor.org/rfc/rfc7967.txt
 func IsNoResponseCode(code codes.Code, noRespValue uint32) error {
+	// RFC 7967 suppresses whole response classes (2.xx: bit 1, 4.xx: bit 3, 5.xx: bit 4),
+	// not only the codes enumerated in the lists above.
+	switch uint32(code) >> 5 {
+	case 2:
+		if isSet(noRespValue, 1) {
+			return ErrMessageNotInterested
+		}
+	case 4:
+		if isSet(noRespValue, 3) {
+			return ErrMessageNotInterested
+		}
+	case 5:
+		if isSet(noRespValue, 4) {
+			return ErrMessageNotInterested
+		}
+	}
 	suppressedCodes := decodeNoResponseOption(noRespValue)
 
 	for _, suppressedCode := range suppressedCodes {
